@@ -2830,25 +2830,25 @@ Proof.
   rewrite (Top _ _ Ht). reflexivity.
 Qed.
 
-(* REFUTED without that condition: a rung whose jobs were all reported as failed (dehb.py records
-   them with trial id None) is promoted as it is, and _de_mutation reads _trial_info[None].
-   Witness: 3 rung levels (3, 2, 1 slots), both jobs of the first rung of bracket 1 fail. *)
-Definition dehb_keynone_first : rung_system := [(3%nat, 1%Z); (2%nat, 3%Z); (1%nat, 9%Z)].
-Definition dehb_keynone_ops : list dop := [DNext; DNext; DNext; DNext; DNext; DFail 3; DFail 3].
-
-Theorem dehb_mutation_reads_none_refuted :
-  exists first md nb ops st bid b sl lv gp rt pos,
-    drun_from first md nb ops = Ok st /\ (0 < bid)%nat /\
-    nth_error (m_brackets (d_mgr st)) bid = Some b /\ current_rung_and_level b = Ok (sl, lv) /\
-    (0 < current_rung b)%nat /\ (pos < length sl)%nat /\
-    read_trial_info (mutation_parent (d_mgr st) bid false lv (length sl) gp rt pos) = Error EKeyNone.
+(* since the fix of F-C13-3 the lookup is total above the base rung: a failed job's slot in the top
+   list is replaced by a random existing trial *)
+Theorem dehb_mutation_reads_trials_total : forall first md nb ops m0 st bid b sl lv gp rt,
+  dehb_mgr_init first md nb = Ok m0 -> drun_from first md nb ops = Ok st ->
+  nth_error (m_brackets (d_mgr st)) bid = Some b -> current_rung_and_level b = Ok (sl, lv) ->
+  (0 < current_rung b)%nat ->
+  forall pos, (pos < length sl)%nat ->
+    exists t, read_trial_info (mutation_parent (d_mgr st) bid false lv (length sl) gp rt pos) = Ok t.
 Proof.
-  exists dehb_keynone_first, Min, None, dehb_keynone_ops.
-  destruct (drun_from dehb_keynone_first Min None dehb_keynone_ops) as [st|e] eqn:E; vm_compute in E; [|discriminate].
-  inversion E; subst st. eexists _, 1%nat, _, _, _, [], 0%Z, 0%nat.
-  split; [reflexivity|]. split; [lia|]. split; [reflexivity|]. split; [reflexivity|].
-  split; [simpl; lia|]. split; [simpl; lia|]. vm_compute. reflexivity.
+  intros first md nb ops m0 st bid b sl lv gp rt H E Nb C Hc pos Hp.
+  destruct (dehb_top_of_previous_rung _ _ _ _ _ _ _ _ _ _ H E Nb C Hc)
+    as [prev [lvp [vals [top [rest [_ [_ [_ [_ [LT [_ [Top _]]]]]]]]]]]].
+  destruct (nth_error top pos) as [t|] eqn:Ht.
+  2:{ apply nth_error_None in Ht. lia. }
+  unfold mutation_parent.
+  replace (Nat.leb (length sl) pos) with false by (symmetry; apply Nat.leb_gt; exact Hp).
+  rewrite (Top _ _ Ht). destruct t as [t|]; eexists; reflexivity.
 Qed.
+
 
 (* regression example for former finding F-C05-2 (3 rung levels, 1 bracket per iteration): the job
    (bracket 1, rung 2) now finds its parent, the trial in rung 2 of bracket 0 *)
